@@ -123,7 +123,7 @@ func (e *runEvents) TargetEvaluating(label *label.Label, reason string, diff dif
 
 func (e *runEvents) TargetFailed(label *label.Label, err error) {
 	e.c <- starlarkstruct.FromStringDict(starlarkstruct.Default, starlark.StringDict{
-		"kind":  starlark.String("TargetUpToDate"),
+		"kind":  starlark.String("TargetFailed"),
 		"label": starlark.String(label.String()),
 		"err":   starlark.String(err.Error()),
 	})
